@@ -15,6 +15,13 @@ def units():
         U.append(dict(base, name="ima.aiff_decode_step.ch%d" % ch, entry="h_ima_aiff", defines=["-DLAYOUT_AIFF", "-DCH=%d" % ch],
                       function="ima_adpcm.c:aiff_ima_decode_block", cbmc_flags=["--unwind", "40"],
                       kind="proof(full domain of predictor x step index x code, first two steps per channel; channels=%d)" % ch))
+    for lay, fn, chs in (("PAF", "paf24_seek", (1, 2)), ("SDS", "sds_seek", (1,))):
+        for ch in chs:
+            U.append({"name": "%s.%s.ch%d" % (lay.lower(), fn, ch), "props": ["C06", "C08"], "harness": "blockseek.harness.c", "entry": "h_blockseek", "enforce": fn,
+                      "function": "%s.c:%s" % ("paf" if lay == "PAF" else "sds", fn), "defines": ["-DLAYOUT_%s" % lay, "-DCH=%d" % ch], "timeout": 1200, "backend": "kissat",
+                      "replace": ["psf_fseek"] + (["paf24_read_block", "paf24_write_block"] if lay == "PAF" else []),
+                      "kind": "enumerated(block geometry of %s, channels=%d; read-mode seek)" % (lay, ch),
+                      "trusted": ["block reader / writer frame contracts (effect on counters and file position; their data path has no unit)"]})
     for nm, entry, be in (("float32_write", "h_f32_write", "kissat"), ("float32_read", "h_f32_read", "kissat")):
         U.append({"name": "ieee." + nm, "props": ["C20"], "harness": "ieee_ser.harness.c", "entry": entry, "dfcc": False, "backend": be,
                   "function": "float32.c:float32_le_%s, float32_be_%s" % (nm.split("_")[1], nm.split("_")[1]), "timeout": 1200, "self_replay": True, "inputs": ["nd"], "replay_link": "all", "replay_exclude": [nm.split("_")[0] + ".c"],
@@ -38,7 +45,7 @@ def units():
 
 NOT_DECIDED = {
     "C06": ["IMA seek: a failing psf_fseek inside the codec seek is ignored by the code (return value unchecked); the units assume repositioning succeeds",
-            "PAF24, SDS, ALAC, DWVW, GSM610 seek functions"],
+            "PAF24 / SDS seeks: write-mode seeks, and targets beyond 2^24 frames (the int product block * blocksize overflows for files above about 2 GiB)", "ALAC, DWVW seek functions"],
     "C20": ["Microsoft ADPCM block decoder (published definitions disagree on truncating division vs arithmetic shift; no single reference)",
             "subnormal values and zero sign through the portable IEEE-754 serialisers (the property speaks of normal values)",
             "OKI/VOX codec (excluded by the property text)"],
